@@ -37,6 +37,7 @@ Judge(e) ==
      /\ say(AllZeroCrossings(sc, e.tris), "vertex-is-not-the-linear-zero-crossing")
      /\ say(InBox(d, e.tris), "vertex-outside-the-sampled-box")
      /\ say(Complete(sc, d, e.tris), "straddling-lattice-edge-without-a-vertex")
+     /\ say(e.badnorm = 0, "normal-disagrees-with-gradient")
      /\ (IF SameBag(SymTris(e.tris), UniTris(sc, d)) THEN TRUE ELSE PrintT(<<"DRIFT", l>>))
 Next == /\ l <= Len(Trace) /\ l' = l + 1 /\ (IF Judge(Trace[l]) THEN TRUE ELSE TRUE)
 Spec == Init /\ [][Next]_l
